@@ -79,4 +79,10 @@ META = {
   text="Generated search over operators, value kinds, boundary values and aggregations with an independent predicate as oracle, and a metamorphic relation for the server-side pre-filter (results must not depend on whether the node applies address/topics).",
   note="Trusted: refmodel.Filter.Accepts/Fold, model.Project, sim.LogMatches (eth_getLogs semantics).",
  ),
+ "C16": dict(
+  design_ref="DESIGN.md §5 C16",
+  technique="rapid generated integration sets -> ValidateFix/Migrate on the fake Postgres -> real COPY of generated blocks twice (first must succeed, second must collide); validation negatives by single-reference removal",
+  text="Generated search over integration sets and chains: DDL and migrations are executed by a Postgres stand-in that enforces column existence and unique indexes, real emitted rows are copied in, and a replay of the same blocks must hit the generated unique key.",
+  note="Trusted: fakepg DDL semantics (create table/index if not exists, add column if not exists, information_schema diff, unique enforcement with NULLs distinct).",
+ ),
 }
